@@ -105,6 +105,18 @@ Proof.
     destruct (Nat.leb_spec n 72); lia.
 Qed.
 
+(* the branch adfFileCreateNextBlock takes for its n-th data block (decision slice REGENERATED from adf_file.c: 0 = slot in the
+   header, 1 = extension block and data block taken together, 2 = slot in the current extension block) is the model's *)
+Theorem append_decision_is_librarys : forall n : nat,
+  (d_adfFileCreateNextBlock (Z.of_nat n) = 1%Z <-> needs_ext n = true) /\
+  (d_adfFileCreateNextBlock (Z.of_nat n) = 0%Z <-> n < SLOTS).
+Proof.
+  intros n. unfold d_adfFileCreateNextBlock, needs_ext, SLOTS.
+  destruct (Z.ltb_spec (Z.of_nat n) 72) as [H|H]; destruct (Nat.leb_spec 72 n) as [H'|H']; try lia; cbn [andb];
+    destruct (Z.eqb_spec (Z.of_nat n mod 72) 0) as [E|E]; destruct (Nat.eqb_spec (n mod 72) 0) as [E'|E']; try lia;
+    split; split; intros X; try (exfalso; discriminate X); try reflexivity; try lia.
+Qed.
+
 (* ---- where the k-th data block is found ---- *)
 Theorem find_block_enc : forall (l es : list Z) (k : nat),
   length es = nexts (length l) -> k < length l ->
